@@ -3,7 +3,7 @@
    rate to usage p x times (binary64, round to nearest even). *)
 From Coq Require Import String ZArith List Permutation Sorted.
 From Verif Require Import Base.GoInt Base.GoFloat Base.GoSort Base.GoSortSpec Strategy.Model Strategy.ProofsBase
-  Strategy.ProofsSort Strategy.Proofs Strategy.ProofsOk Strategy.ProofsOld Strategy.Statements.
+  Strategy.ProofsSort Strategy.Proofs Strategy.ProofsOk Strategy.ProofsOld Strategy.Statements Strategy.Glue Strategy.ProofsGlue.
 Local Open Scope Z_scope.
 
 (* AUTO: a node that received an instance never ends more than one above a node
@@ -96,3 +96,11 @@ Print Assumptions C03_ok_sound_on_model.
 Theorem C03_hypotheses_satisfiable : valid_infos ex_infos /\ float_ok ex_infos.
 Proof. exact (conj ex_valid ex_float_ok). Qed.
 Print Assumptions C03_hypotheses_satisfiable.
+
+Theorem C03_glue : forall caps order status need limit total,
+  valid_caps caps status -> Permutation caps order -> 0 < need -> 0 <= limit ->
+  forall s p, (s = Global -> float_ok (glue_infos order status)) ->
+  glue s need limit order status total = Ok p ->
+  C03_spec s need limit (glue_infos order status) p.
+Proof. exact glue_C03. Qed.
+Print Assumptions C03_glue.
